@@ -177,7 +177,7 @@ func ruleC08Checks(c *ctx.Ctx, r *core.Reporter) {
 	})
 	r.Check(t != nil, "nil-map-store", "compiler/statements.go:translateAssign", "m[k] = v throws for a nil map before calling .set")
 	// make(map, n) size check
-	t = hasTemplate(c, "funcContext.translateBuiltin", `name:"make"/type:*types.Map`, func(t *tmpl.Template) bool {
+	t = hasTemplate(c, "funcContext.translateBuiltin", `_:"make"/type:*types.Map`, func(t *tmpl.Template) bool {
 		return strings.Contains(t.Text, "< 0 ||") && strings.Contains(t.Text, `$throwRuntimeError("makemap: size out of range")`)
 	})
 	r.Check(t != nil, "make-map-size", "compiler/expressions.go:translateBuiltin", "make(map, n) with a non-constant n checks the size")
